@@ -532,3 +532,33 @@ def gen_wiring_case(rng, name):
 def gen_wiring_cases(seed, n, prefix="t"):
     rng = random.Random(seed)
     return [gen_wiring_case(rng, "%s%05d" % (prefix, i)) for i in range(n)]
+
+
+# ---------------------------------------------------------------- C13: RunIfOutOfBounds with long and short targets
+def gen_oob_case(rng, name):
+    """long/short books rebalanced when a held leg leaves its band: [weights, Or(calendar, RunIfOutOfBounds(tol)), Rebalance]"""
+    n = rng.randint(8, 20)
+    dates = gen_dates(rng, n)
+    nt = rng.randint(2, 4)
+    tickers = list(range(1, nt + 1))
+    prices = [[t, gen_price_col(rng, n, p_nan=0.0)] for t in tickers]
+    ws = []
+    for t in tickers:
+        w = rng.choice([0.5, 0.25, 0.375, 0.125, -0.25, -0.125, -0.375])
+        ws.append([t, hx(w)])
+    if all(float.fromhex(w) > 0 for _, w in ws):
+        ws[-1][1] = hx(-0.25)
+    tol = hx(rng.choice([0.015625, 0.03125, 0.0625, 0.125, 0.25]))
+    gate = ["or", [rng.choice([["runonce"], ["runperiod", "monthly", True, False, False], ["runperiod", "yearly", True, False, False]]),
+                   ["outofbounds", tol]]]
+    st = [["selectthese", tickers, False, False], ["weighspecified", ws], gate, ["rebalance"]]
+    kids = [["sec", t, "sec", False, hx(1.0), "str"] for t in tickers] if rng.random() < 0.5 else []
+    comm = rng.choice([["none"], ["none"], ["prop", hx(0.001953125)]])
+    return {"name": name, "dates": dates, "intpos": rng.random() < 0.3, "comm": comm, "prices": prices,
+            "bidoffer": None, "coupons": None, "cost_long": None, "cost_short": None, "adata": [],
+            "capital": hx(1000000.0), "tree": ["strat", nt + 2, False, kids, st], "pyseed": 0}
+
+
+def gen_oob_cases(seed, n, prefix="o"):
+    rng = random.Random(seed)
+    return [gen_oob_case(rng, "%s%05d" % (prefix, i)) for i in range(n)]
